@@ -15,6 +15,7 @@ binary64 round-to-nearest-even (`rnd = rne`).
   raop <m> <ctx|none> <ops>   facade over RaopAudio → per-op event lists
   mrp  <m> <vol> <ops>        facade over MrpAudio  → per-op event lists
   ops: `s:<v>` set, `u` up, `d` down, `r` read, `p:<v>` report, `t:<v|none>:<a|r>` stream start, receiver accepts / rejects volume before RECORD (raop only),
+       `f:<v>` set refused by the receiver (raop only),
        `o:<v>` update for another output device (mrp only); comma separated, `-` = none
   events: recv:<v> wire:<v> disp:<v> try:<v> late:<v> ret:<v> raise:<e> log:<e>; `,` inside an op, `;` between ops
 -/
@@ -72,6 +73,7 @@ def op? (raop : Bool) (s : String) : Option Op :=
       if !raop || (a != "a" && a != "r") then none
       else if v == "none" then some (.streamStart none (a == "a"))
       else (fval? v).map (fun x => .streamStart (some x) (a == "a"))
+    | ["f", v] => if raop then (fval? v).map .setRefused else none
     | ["o", v] => if raop then none else (fval? v).map .reportOther
     | _ => none
 
